@@ -568,8 +568,15 @@ class _AffMapping:
     def w2p(self, x, y):
         return (~self.M) * (x, y)
 
+    @property
+    def resolution(self):
+        """pixel size of the control-point grid itself (not of a zoomed view of it)"""
+        from odc.geo.math import resolution_from_affine
 
-def h_gcp_affine(op, crop):
+        return resolution_from_affine(self.M)
+
+
+def h_gcp_affine(op, crop, zoom=None):
     """GCP GeoBox with affinely related control points: the same relations as a linear GeoBox, exactly"""
     from affine import Affine
 
@@ -592,6 +599,9 @@ def h_gcp_affine(op, crop):
         g = gcp.GCPGeoBox((ny, nx), mp, Affine.translation(x0, y0))
     else:
         g = gcp.GCPGeoBox((ny, nx), mp)
+    if zoom is not None:
+        # a zoomed view (an overview): zoom x zoom control-point pixels per pixel of the view
+        g = gcp.GCPGeoBox((ny, nx), mp, (Affine.translation(x0, y0) if crop else Affine.identity()) * Affine.scale(zoom, zoom))
     corners = [g.pix2wld(x, y) for x, y in ((0, 0), (nx, 0), (nx, ny), (0, ny))]
     xs, ys = [ex(p[0]) for p in corners], [ex(p[1]) for p in corners]
     def _ext(vals, lt):
@@ -638,7 +648,8 @@ def h_gcp_affine(op, crop):
         prove("shape_from_resolution", And(g2.shape.x >= wx - F(1, 100), g2.shape.x < wx + 1 + F(1, 100), g2.shape.y >= wy - F(1, 100), g2.shape.y < wy + 1 + F(1, 100)))
     elif op == "resolution":
         r = g.resolution
-        lin_gb = GeoBox((ny, nx), Affine(rconst(lin[0]), rconst(lin[1]), 0.0, rconst(lin[2]), rconst(lin[3]), 0.0), None)
+        z = 1 if zoom is None else zoom
+        lin_gb = GeoBox((ny, nx), Affine(rconst(lin[0] * z), rconst(lin[1] * z), 0.0, rconst(lin[2] * z), rconst(lin[3] * z), 0.0), None)
         r0 = lin_gb.resolution
         prove("resolution_as_linear", And(abs(ex(r.x) - ex(r0.x)) <= F(1, 10**6), abs(ex(r.y) - ex(r0.y)) <= F(1, 10**6)))
 
@@ -748,7 +759,7 @@ OBLIGATIONS = [
                                                       [dict(res0=a, res1=b) for a in (["10", "-10"], ["1/4", "1/4"]) for b in (["30", "-30"], ["7/3", "-7/3"], ["1", "-1"], ["1/3", "1/3"])]),
        descr="zoom_to(resolution=): requested pixel size, covers the same region, tight", functions=("odc.geo.geobox.GeoBoxBase.compute_zoom_to", "odc.geo.geobox.GeoBox.from_bbox"),
        bounds="axis-aligned grids, both resolutions from grid", setup=setup, timeout_ms=20000),
-    Ob("G8_gcp_affine", h_gcp_affine, fixed(*[dict(op=o, crop=c) for o in ("bbox", "zoom_res") for c in (False, True)]),
+    Ob("G8_gcp_affine", h_gcp_affine, fixed(*[dict(op=o, crop=c) for o in ("bbox", "zoom_res") for c in (False, True)], dict(op="resolution", crop=False), dict(op="resolution", crop=True, zoom=4), dict(op="bbox", crop=False, zoom=2)),
        descr="GCP GeoBox with affinely related control points: boundingbox is the world image of the pixel rectangle; zoom_to(resolution=) keeps the region",
        functions=("odc.geo.gcp.GCPGeoBox.boundingbox", "odc.geo.gcp.GCPGeoBox.zoom_to", "odc.geo.geobox.GeoBoxBase.compute_zoom_to", "odc.geo.geobox.GeoBoxBase.extent"),
        bounds="control-point map = fixed linear part (3,-1/2;1/4,-2) with symbolic offset; shape and crop offset symbolic; target resolution 7/2",
